@@ -164,7 +164,8 @@ pub fn run(args: &Args) -> Report {
                     rep.bump("files_unedited", 1);
                     if c17 && clean == Some(true) {
                         let before = rep.findings.len();
-                        text::check_format(&f.content, &f.path, &widths, rep, false);
+                        let plain_id = format!("{}|plain", f.path);
+                        text::check_format(&f.content, &plain_id, &widths, rep, false);
                         if rep.findings.len() > before {
                             rep.bump("files_with_new_format_findings", 1);
                         }
